@@ -134,6 +134,8 @@ RuleFiles ==
 
 ASSUME SkipRules \/ \A rf \in RuleFiles : PrintT(<< "RULEFILE", ToJson(rf) >>)
 
+ASSUME SkipRules \/ PrintT(<< "DEFAULTS", ToJson(DocumentedDefaults) >>)
+
 \* every hosts file on its own: TlsHostsSettings::builder()...build() and Core::reload_tls_hosts_settings
 ASSUME SkipRules \/ \A n \in DOMAIN Hosts :
           PrintT(<< "HOSTS", ToJson([ name |-> n, cls |-> Hosts[n].cls, hs |-> Hosts[n].hs, hoststoml |-> HostsText(Hosts[n].hs), expect |-> HostsVerdict(n),
